@@ -13,6 +13,7 @@ RULE = ('random DFAs / NFAs / PDAs / TMs (1-4 states; empty accepting set, empty
         'cfg_print_simple then parse_simple_cfg. Relation: the re-parsed automaton equals the original field by field and equals the model parser\'s result on the same text, and the model printer/parser round trip holds on the object; '
         'regexps: same printed form and same language (bounded check + exact equivalence through the proved regexp->NFA and subset constructions); grammars: equal grammar (Python-level comparison, format not modelled). '
         'Non-trivial = the object has >= 2 transitions / operators / rules; distinct by object.')
+RULE += ' Added after the seeded rounds: character-level comparison of the regexp printers / parsers and of the simple CFG text format with Model/RegexpSyntax.v, Model/CFGText.v (informational).'
 CODES = dict(C17.CODES)
 CODES.update({13: 'model DFA print/parse round trip fails (machinery or model)', 23: 'model NFA round trip fails', 33: 'model PDA round trip fails', 43: 'model TM round trip fails',
               50: 'a printed regular expression could not be re-parsed', 51: 're-parsed regular expression prints differently', 52: 're-parsed regular expression has a different language',
@@ -26,7 +27,7 @@ def gen(rng, tier):
     quick = tier == 'quick'
     cases = []
     for kind in ('dfa', 'nfa', 'pda', 'tm'):
-        for _ in range(150 if quick else 3000):
+        for _ in range((150 if kind != 'tm' else 260) if quick else 3000):
             x = C17.random_obj(rng, kind)
             reserved = {'dfa': ['input_symbols'], 'nfa': ['input_symbols', 'epsilon'], 'pda': ['input_symbols', 'stack_symbols', 'epsilon'],
                         'tm': ['input_symbols', 'tape_symbols', 'blank', 'accept', 'reject']}[kind] + ['states', 'final', 'initial']
